@@ -25,6 +25,36 @@ CLAIMED = {
    note="Trusted: Lean kernel; annotate-snippets is represented by its observed contract (validated differentially, not proved); file-system faults are modelled as 'read fails -> None'; that the expansion raises exactly one panic after all pushes is tied structurally (expansion tokens) and by compiled programs.",
    technique="Lean 4 proof that every produced span meets the renderer's contract + differential execution of the real Display over faulted source files",
    design="5/C06"),
+ "C01": dict(
+   text="Proof (Lean 4 kernel). C01_sound: if the expansion pushes no entry then sat (the documented meaning, Sat.lean) holds, via run_eq_frontier and frontier_agree. The backbone is the refinement theorem (Theorems/Refine.lean): for every pattern satisfying the decidable guard Pat.safe, every value, every environment and every interpretation of user expressions / Debug / comparison / matchers, the model of the generated code run under the model of Rust's match semantics pushes exactly the entries of the specification's failure frontier (mutual structural induction over the pattern tree; no bound on depth or size). The model of the code generator is tied to the real expand::expand output token by token and span by span on every run (T2: every invocation in the repository plus generated patterns), and the specification is compared with compiled programs on generated (type, value, pattern) triples (T3). Per-form meaning lemmas state the documented meaning outright; C01_binding_path_is_vacuous records the known vacuous form (a path that resolves to nothing binds).",
+   note="Trusted: Lean kernel; Rust's dynamic semantics for the generated constructs are modelled (Exec.lean) and validated by T3, not proved; user expressions are opaque parameters; guard Pat.safe excludes the known-finding shapes (deref followed by postfix operations, deref in wildcard structs).",
+   technique="Lean 4 refinement proof (expansion model = failure-frontier specification) + token-exact correspondence with the real code generator + compiled-program differential against the specification",
+   design="5/C01"),
+ "C02": dict(
+   text="Proof (Lean 4 kernel). C02_complete: if the pair type-checks and sat holds, the expansion pushes nothing; corollaries proved separately: wildcard, #{..}, #(..), struct rest, field order and field repetition irrelevance, slice rest. The backbone is the refinement theorem (Theorems/Refine.lean): for every pattern satisfying the decidable guard Pat.safe, every value, every environment and every interpretation of user expressions / Debug / comparison / matchers, the model of the generated code run under the model of Rust's match semantics pushes exactly the entries of the specification's failure frontier (mutual structural induction over the pattern tree; no bound on depth or size). The model of the code generator is tied to the real expand::expand output token by token and span by span on every run (T2: every invocation in the repository plus generated patterns), and the specification is compared with compiled programs on generated (type, value, pattern) triples (T3).",
+   note="Same trusted base as C01.",
+   technique="Lean 4 refinement proof + frontier/sat agreement + T2/T3 correspondence (matching stream: every generated matching triple must return)",
+   design="5/C02"),
+ "C03": dict(
+   text="Proof (Lean 4 kernel). C03_frontier: the entries pushed are exactly the specification's frontier (same nodes, order, texts); lemmas: a matched sub-pattern has no entry, sibling entries concatenate (a failing sibling never hides another), wrong variant / slice length yield one entry and nothing from inside, a set yields at most one entry for its own node (via the C10 theorems), each missing key yields one entry on the map node. The backbone is the refinement theorem (Theorems/Refine.lean): for every pattern satisfying the decidable guard Pat.safe, every value, every environment and every interpretation of user expressions / Debug / comparison / matchers, the model of the generated code run under the model of Rust's match semantics pushes exactly the entries of the specification's failure frontier (mutual structural induction over the pattern tree; no bound on depth or size). The model of the code generator is tied to the real expand::expand output token by token and span by span on every run (T2: every invocation in the repository plus generated patterns), and the specification is compared with compiled programs on generated (type, value, pattern) triples (T3).",
+   note="Same trusted base as C01. Reading fixed in DESIGN.md: a map's length failure does not stop present keys from being examined.",
+   technique="Lean 4 refinement proof + T2/T3 correspondence (near-miss stream with 1..n simultaneous failures: recorded entries (location, label) vs the frontier)",
+   design="5/C03"),
+ "C05": dict(
+   text="Proof (Lean 4 kernel). C05_push_formats_tested_value: in every template of every expansion the expression passed to format!(\"{:?}\", ..) is the expression that template tested (mutual induction over the generator model); C05_leaf_actual_is_debug, C05_set_summary_true, C05_map_summary_true: the actual texts are Debug of the sub-value reached / true summaries, for any Debug function. The backbone is the refinement theorem (Theorems/Refine.lean): for every pattern satisfying the decidable guard Pat.safe, every value, every environment and every interpretation of user expressions / Debug / comparison / matchers, the model of the generated code run under the model of Rust's match semantics pushes exactly the entries of the specification's failure frontier (mutual structural induction over the pattern tree; no bound on depth or size). The model of the code generator is tied to the real expand::expand output token by token and span by span on every run (T2: every invocation in the repository plus generated patterns), and the specification is compared with compiled programs on generated (type, value, pattern) triples (T3). T4 additionally checks the real set_match summaries.",
+   note="Same trusted base as C01; Debug is an uninterpreted parameter in the theorems and emulated (validated by T3) for predictions. The strong form (effectful expressions evaluated twice) is C08's subject.",
+   technique="Lean 4 proof over the generator model + refinement + T2/T3/T4 correspondence on actual texts",
+   design="5/C05"),
+ "C09": dict(
+   text="Proof (Lean 4 kernel). C09_borrow_only: for every pattern the expansion never takes the asserted expression by value (the consumesRoot judgment is false for expand p; mutual induction over the generator model): its tokens occur only in `let __assert_struct_value = &(expr);`. The pinned tree violated this (kernel-checked counterexample; repaired by two fix: commits). Tied to the code by T2 and by a position sweep of generated programs that use the asserted value after the assertion, with rustc's move checker as the oracle.",
+   note="Trusted: Lean kernel; `consumes` is a small syntactic judgment standing in for rustc's move rules, validated against rustc cell by cell (T3). Open finding: closure patterns after field operations that yield a place.",
+   technique="Lean 4 proof over the generator model + T2 token correspondence + rustc accept/reject and before/after comparison on generated programs",
+   design="5/C09"),
+ "C11": dict(
+   text="Verdict half: proof (Lean 4 kernel) via the refinement theorem - positions only decide which sub-value a pattern is applied to (C11_variant_elem and the refine* lemmas for every position constructor). Acceptance half: decided by rustc itself on a systematic sweep - every atom form, every range shape and every compound type, with matching and bound-crossing values, wrapped in 16 positions; acceptance and verdict compared with the struct-field position and with the specification. Labelled partial for the acceptance half (rustc's typing is an oracle, not modelled). Open findings are keyed by (position class, form).",
+   note="Trusted: Lean kernel for the verdict half; rustc as oracle for acceptance; generator coverage bounds what the sweep sees (distribution in evidence).",
+   technique="Lean 4 refinement proof (verdict) + exhaustive form x position sweep through rustc (acceptance)",
+   design="5/C11"),
 }
 
 def main():
